@@ -183,6 +183,11 @@ fn run_session(bin: &PathBuf, mode: &Mode, roots: &[History], terminals: &[Pos],
             return;
         }
     };
+    // the engine's one option (a log file in the scratch directory) is on in a third of the sessions
+    if rng.chance(1, 3) {
+        s.eng.send(*rng.pick(&["setoption name DebugLogLevel value Info", "setoption DebugLogLevel Info"]));
+        acc.feature("session_with_log_file_switched_on");
+    }
     for step in 0..steps {
         let terminal = step % 2 == 0;
         let (cmd, pos) = if terminal {
